@@ -193,25 +193,29 @@ Definition check_step (c : cfg) (S : list Z) (st : cst) (o : op) (r : opres) : o
       | None => None
       end
   | OMix chans fracs, RMix ok =>
-      if zlen fracs <? zlen chans then Some st            (* malformed request: outside the statement *)
-      else if Bool.eqb ok (mix_chans_valid g chans) then
+      if Bool.eqb ok (mix_chans_valid g chans) then
         Some (if ok then {| k_D := k_D st; k_R := k_R st; k_fpos := k_fpos st; k_next := k_next st;
                             k_ext := k_ext st; k_last := k_last st;
                             k_scale := set_scales g (c_nsamp c) chans fracs (k_scale st);
                             k_realigned := k_realigned st |} else st)
       else None
-  | OMix chans fracs, RPanic _ => if zlen fracs <? zlen chans then Some st else None
   | _, _ => None                                           (* a crash, or an answer of the wrong kind *)
   end.
+
+(* a mix request with unequal numbers of channel indices and fractions is malformed: the statement is silent
+   about it and about what follows *)
+Definition malformed_op (o : op) : bool :=
+  match o with OMix chans fracs => negb (zlen fracs =? zlen chans) | OChunk _ _ => false end.
 
 Fixpoint check_from (c : cfg) (S : list Z) (st : cst) (h : list (op * opres)) : bool :=
   match h with
   | [] => true
   | (o, r) :: rest =>
-      match check_step c S st o r with
-      | Some st' => check_from c S st' rest
-      | None => false
-      end
+      if malformed_op o then true
+      else match check_step c S st o r with
+           | Some st' => check_from c S st' rest
+           | None => false
+           end
   end.
 
 Definition stream_of (ops : list op) : list Z :=
